@@ -22,16 +22,27 @@ for name, c in sorted(confirm.items()):
     src = '/tmp/seed-%s-out/%s' % (pid, m)
     dst = '/verif/seeded/%s' % name
     os.makedirs(dst, exist_ok=True)
-    shutil.copyfile(src + '/patch.diff', dst + '/patch.diff')
+    # a patch written against an older tree was ported by hand to the current one where a later fix: commit touched the same lines
+    ported = os.path.exists(src + '/patch_ported.diff')
+    shutil.copyfile(src + ('/patch_ported.diff' if ported else '/patch.diff'), dst + '/patch.diff')
+    if ported:
+        shutil.copyfile(src + '/patch.diff', dst + '/patch_as_written.diff')
     demo = (glob.glob(src + '/*_test.go') or [None])[0]
     if demo:
         shutil.copyfile(demo, dst + '/demo_test.go.txt')   # .txt: must not be compiled as part of /verif
     if os.path.exists(src + '/README.md'):
         shutil.copyfile(src + '/README.md', dst + '/README.md')
+    need = needs.get(name)
+    if not need and os.path.exists(src + '/README.md'):
+        # the section of the author's README that says what the change needs to manifest
+        txt = open(src + '/README.md').read()
+        m = re.search(r"(?ims)^#+[^\n]*(need|manifest)[^\n]*\n(.*?)(?=^#+ |\Z)", txt)
+        if m:
+            need = re.sub(r"\s+", " ", m.group(2)).strip()[:1500]
     meta = {
         "id": name, "property": pid,
         "written_by": "independent sub-agent given only the property text and a scratch worktree of /repo",
-        "needs_to_manifest": needs.get(name, "see README.md"),
+        "needs_to_manifest": need or "see README.md",
         "confirmed_in_scratch_worktree": c,
         "confirm_cmd": "tools/confirm_seed.sh /tmp/seed-%s-out/%s %s (demo on unchanged tree: pass; demo with patch: fail; full go test with patch: pass)" % (pid, m, name),
         "checks_run": caught.get(name, {}),
